@@ -17,7 +17,31 @@ OK_CLASSES = ('ValueError', 'TypeError')
 HW_MODULES = ('morphological', 'smooth')
 # parameters the statement lists, with the value classes that the statement puts outside the domain
 SCALAR_PARAMS = ('lam', 'p', 'quantile', 'eta', 'diff_order', 'poly_order', 'num_knots',
-                 'spline_degree', 'half_window')
+                 'spline_degree', 'half_window', 'max_half_window', 'min_half_window')
+# parameters whose two-item form is documented in 1-D (left, right)
+PAIR_1D = {('snip', 'max_half_window')}
+# per-entry invalid values of the two-item forms: (valid entry, [(name, invalid entry)])
+PAIR_ENTRIES = {
+    'lam': (1e2, [('zero', 0.0), ('negative', -1.0)]),
+    'diff_order': (2, [('zero', 0), ('negative', -1)]),
+    'poly_order': (2, [('negative', -1), ('negative_fraction', -0.5)]),
+    'num_knots': (5, [('one', 1), ('zero', 0)]),
+    'spline_degree': (3, [('negative', -1), ('negative_fraction', -0.5)]),
+    'half_window': (2, [('zero', 0), ('negative', -2), ('non_integer', 2.5), ('nan', NAN)]),
+    'max_half_window': (5, [('zero', 0), ('negative', -2), ('non_integer', 2.5), ('nan', NAN)]),
+}
+
+
+def pair_classes(param):
+    """one valid + one invalid entry, each position, list / tuple / ndarray containers."""
+    valid, bads = PAIR_ENTRIES[param]
+    out = []
+    for bname, bad in bads:
+        for pos, pair in (('first', [bad, valid]), ('second', [valid, bad])):
+            out.append((f'pair[{pos}]:{bname}:list', list(pair), True))
+            out.append((f'pair[{pos}]:{bname}:tuple', tuple(pair), True))
+            out.append((f'pair[{pos}]:{bname}:ndarray', np.array(pair), True))
+    return out
 # p is documented on [0, 1] for these (default p=0.0); everywhere else on (0, 1)
 CLOSED_P = ('mpls', 'pspline_mpls', 'mpspline')
 
@@ -88,20 +112,30 @@ def value_classes(param, name, two_d):
                ('non_integer', 2.5, False), ('nan', NAN, False)]
         if two_d:
             out += [('pair_one_negative', [-1, 3], True)]
-    elif param == 'half_window':
+    elif param == 'min_half_window':
+        # documented non-negative (swima): zero is valid
+        out = [('negative', -2, True), ('non_integer', 2.5, True), ('negative_non_integer', -2.5, True),
+               ('nan', NAN, True), ('pos_inf', INF, True), ('neg_inf', -INF, True),
+               ('non_integer_len1_array', np.array([2.5]), True), ('array', arr2(2, 3), True)]
+    elif param in ('half_window', 'max_half_window'):
+        pairs = two_d or (name, param) in PAIR_1D
         out = [('zero', 0, True), ('negative', -2, True), ('non_integer', 2.5, True),
                ('fraction_below_one', 0.5, True), ('negative_non_integer', -2.5, True),
                ('nan', NAN, True), ('pos_inf', INF, True), ('neg_inf', -INF, True),
                ('bool_false', False, True), ('zero_len1_array', np.array([0]), True),
                ('non_integer_len1_array', np.array([2.5]), True),
-               ('array', np.array([2, 2, 2]) if two_d else arr2(2, 3), True)]
+               ('array', np.array([2, 2, 2]) if pairs else arr2(2, 3), True)]
         if two_d:
             out += [('pair_one_zero', [2, 0], True), ('pair_one_non_integer', [2, 2.5], True)]
+    if param in PAIR_ENTRIES and (two_d or (name, param) in PAIR_1D):
+        out += pair_classes(param)
     return out
 
 
 def scalar_in_scope(param, name, two_d, module=None):
     """Is (method, parameter) inside the statement?  half_window only for morphological/smoothing."""
+    if param in ('max_half_window', 'min_half_window'):
+        return (module or method_module(name, two_d)) in HW_MODULES
     if param == 'half_window':
         # pspline_mpls lives in spline.py but is the P-spline version of the morphological mpls
         return (module or method_module(name, two_d)) in HW_MODULES or name == 'pspline_mpls'
